@@ -76,6 +76,17 @@ def run_history(eng, rng, oc, allow_weird):
     pagegen.MAX_YEAR = 2099
     with Z.tmpdir("c11_") as d:
         files = {name: c09.gen_c09_page(rng) for name in rng.sample(["alpha.zo", "beta.zo", "sub/gamma.zo"], 2)}
+        # a character that str.splitlines() takes for a line end (form feed, file separator, U+2028 in UTF-8) inside a word of
+        # the first item: the lines of a page end at "\n" only, so every later note keeps its line number
+        for name in list(files):
+            if rng.random() < 0.5:
+                ls = files[name].split("\n")
+                for i, l in enumerate(ls):
+                    m = re.match(r"[-ox~<>] .*\b(plain|foo|Baz_1)\b", l)
+                    if m:
+                        ls[i] = l[:m.end(1) - 1] + rng.choice(["\x0c", "\x1c", "\xe2\x80\xa8"]) + l[m.end(1) - 1:]
+                        break
+                files[name] = "\n".join(ls)
         write_tree(d, files)
         with freeze_time(dt.datetime(2024, 6, 1, 12)):
             Z.db_create(d)
